@@ -654,6 +654,92 @@ def suite_random(ctx: Ctx) -> SuiteResult:
     return res
 
 
+def suite_shapes(ctx: Ctx) -> SuiteResult:
+    """Module *shapes* the interleaving suites do not vary: state held in buffers only (a running
+    normaliser, an EMA target), parameters and buffers, nested sub-modules, no state at all. Monitor
+    only (sequential): identity of the two modules, old-then-new in full, post-condition of sync."""
+    res = SuiteResult("torchsync-module-shapes", exhaustive=True,
+                      rule="module shapes {params, buffers only, params+buffers, nested buffers-only child, "
+                           "stateless} x inference_thread_only x (write, look, sync, look, write, look): the "
+                           "inference side never holds the module the trainer writes (unless inference-only), "
+                           "sees the old state in full before a sync and the new one after, and sync leaves the "
+                           "training module with equal values in training mode; non-trivial = has state")
+    M = _mods()
+    nn, torch, ptorch = M["nn"], M["torch"], M["ptorch"]
+
+    def make(shape):
+        class Leaf(nn.Module):
+            def __init__(self, np_, nb):
+                super().__init__()
+                for k in range(np_):
+                    setattr(self, f"p{k}", nn.Parameter(10 + k))
+                for k in range(nb):
+                    self.register_buffer(f"b{k}", torch.Tensor(20 + k))
+
+        class Nest(nn.Module):
+            def __init__(self):
+                super().__init__()
+                self.child = Leaf(0, 2)
+                self.register_buffer("count", torch.Tensor(0))
+        return {"params": lambda: Leaf(2, 0), "buffers-only": lambda: Leaf(0, 2),
+                "params+buffers": lambda: Leaf(1, 2), "nested-buffers-only": Nest,
+                "stateless": lambda: Leaf(0, 0)}[shape]()
+
+    def state(m):
+        return dict(m.state_dict())
+
+    def write(m, base):
+        for k, t in enumerate(list(m.parameters()) + list(m.buffers())):
+            t.data = base + k
+
+    for shape in ("params", "buffers-only", "params+buffers", "nested-buffers-only", "stateless"):
+        for inf_only in (False, True):
+            case = {"shape": shape, "inf_only": inf_only}
+            res.evaluations += 1
+            res.hit("shape:" + shape)
+            if shape != "stateless":
+                res.nontrivial.add((shape, inf_only))
+
+            def bad(key, what, case=case):
+                res.violations.append(Violation("torch:shape:" + key, f"{what} (module shape {case['shape']}, "
+                                                f"inference_thread_only={case['inf_only']})", {"shapes": case}))
+            net = make(shape)
+            tm = ptorch.TorchTrainingModel(net, inference_thread_only=inf_only,
+                                           inference_procedure=lambda model: (model, state(model)))
+            im = tm.inference_model
+            seen_mod, s0 = im.infer()
+            if not inf_only and seen_mod is tm.model:
+                bad("shared-module", "the inference side was handed the very module object the trainer modifies")
+            init = state(net)
+            if s0 != init:
+                bad("initial-copy", f"a new inference model shows {s0}, the training model holds {init}")
+            if inf_only:
+                continue
+            write(tm.model, 100)                       # the trainer is at work: nothing reaches inference yet
+            seen_mod, s1 = im.infer()
+            if s1 != init:
+                bad("sees-training-writes", f"before any sync inference sees {s1}, expected the old state {init} in full")
+            want = state(tm.model)
+            tm.model.train()
+            tm.sync()
+            seen_mod, s2 = im.infer()
+            if s2 != want:
+                bad("sync-post", f"after sync inference sees {s2}, the just-trained state is {want}")
+            if state(tm.model) != want or not tm.model.training:
+                bad("sync-post-training-side", f"after sync the training model holds {state(tm.model)} "
+                                                f"(training={tm.model.training}), expected {want} in training mode")
+            if seen_mod is tm.model:
+                bad("shared-module", "after sync both sides hold the same module object")
+            write(tm.model, 200)
+            seen_mod, s3 = im.infer()
+            if s3 != want:
+                bad("sees-training-writes", f"after the sync, further training writes show through: {s3} vs {want}")
+    return res
+
+
+suite_shapes.needs_driver = False
+
+
 def suite_malformed(ctx: Ctx) -> SuiteResult:
     res = SuiteResult("torchsync-malformed",
                       rule="malformed driver lines must answer bad-op; events the model cannot make "
@@ -760,7 +846,7 @@ if __name__ == "__main__":
     setup_repo_path()
     sys.exit(run_check(
         "C19", lean_modules=["Pamiq.Props.C19", "Pamiq.Lemmas.TorchSync"], required_theorems=REQUIRED,
-        suites=[suite_exhaustive, suite_flags, suite_random, suite_malformed],
+        suites=[suite_exhaustive, suite_flags, suite_shapes, suite_random, suite_malformed],
         search=search, replay=replay, assumptions=ASSUMPTIONS,
         trusted_extra=["harness/stubs/torch (stand-in for PyTorch, behaviour listed in the assumptions)",
                        "harness/linesched.py + harness/accsched.py (baton scheduler, access-granular "
